@@ -195,7 +195,7 @@ impl Scenario for HistScenario {
 		64
 	}
 	fn setup(&self) -> HState {
-		let shared = Arc::new(Shared { rx_split: false, fail_ping: false,
+		let shared = Arc::new(Shared { rx_split: false, fail_ping: false, fail_close: false,
 			sent: Default::default(),
 			send_calls: Default::default(),
 			fail_send_at: None,
@@ -540,7 +540,7 @@ fn repeat_cycle(cycle: &[Ev], reps: usize) -> Vec<[usize; 4]> {
 			100_000
 		}
 		fn setup(&self) -> Self::State {
-			let shared = Arc::new(Shared { rx_split: false, fail_ping: false,
+			let shared = Arc::new(Shared { rx_split: false, fail_ping: false, fail_close: false,
 				sent: Default::default(),
 				send_calls: Default::default(),
 				fail_send_at: None,
@@ -705,7 +705,7 @@ impl Scenario for DropUnderBackpressure {
 		mask_tx
 	}
 	fn setup(&self) -> DbState {
-		let shared = Arc::new(Shared { rx_split: false, fail_ping: false,
+		let shared = Arc::new(Shared { rx_split: false, fail_ping: false, fail_close: false,
 			sent: Default::default(),
 			send_calls: Default::default(),
 			fail_send_at: None,
